@@ -50,6 +50,18 @@
 (*          = a x + s xi for m = 0, which is what the code computes; the    *)
 (*          coded form for m # 0 is the deviation ProposalUsesRawPriorDraw  *)
 (*   MALA   y = x + (eps/2) g(x) + sqrt(eps) xi    mu = 0                   *)
+(* Randomness source (field cfg.src, constant Sources): WHERE the kernel    *)
+(* takes the noise vector xi from.  The identities above do not depend on   *)
+(* it - every source must deliver the d INDEPENDENT components of xi - so   *)
+(* the source is one more dimension of the configuration that the           *)
+(* realisation has to cover (SourcesOf: the options the two interfaces      *)
+(* offer):                                                                  *)
+(*   "global"   default construction: numpy's global stream                 *)
+(*   "rng"      a generator object given as rng= (cuqi.sampler.ULA / MALA)   *)
+(*   "proposal" a user-supplied proposal distribution object (proposal=)    *)
+(*   "callable" a user-supplied callable proposal (component-wise kernel)   *)
+(*   "prior"    a user-supplied prior object whose sample() is the noise    *)
+(*              (PCN: Posterior(likelihood, prior) / (likelihood, prior))   *)
 (* RTrue(x, y) = lp(y) - lp(x) + log q(x | y) - log q(y | x) with           *)
 (* log q(y | x) = -|xi(x -> y) - mu|^2 / 2 (Jacobians are constant in x).   *)
 (*                                                                         *)
@@ -78,9 +90,10 @@ CONSTANTS Dims,          \* subset of {1, 2}
           AllStarts,     \* TRUE: every finite lattice point is an initial point; FALSE: the origin
           Hist,          \* TRUE: keep the behaviour in `prog` (emission); FALSE: no history (deep exhaustive run)
           Emit,
+          Sources,       \* randomness sources enumerated (subset of SourceIds)
           ProposalUsesRawPriorDraw, AcceptsNaN, Mutation
 
-VARIABLES cfg,      \* [k, iface, d, tgt, sc, m, x0]
+VARIABLES cfg,      \* [k, iface, d, tgt, sc, m, x0, src]
           x,        \* current point (tuple of integers)
           c_lp, c_grad, c_lik,   \* cached evaluations
           scale,    \* scale id
@@ -157,6 +170,16 @@ SqrtEps(id) == IF id = "one" THEN One ELSE Half                 \* sqrt(eps)
 ASSUME \A id \in {"s35", "s45"} : RAdd(RSq(PcnA(id)), RSq(SV(id, 1)[1])) = One
 ASSUME \A id \in {"one", "quarter"} : RSq(SqrtEps(id)) = SV(id, 1)[1]
 
+\* ------------------------------ randomness sources ------------------------------
+SourceIds == {"global", "rng", "proposal", "callable", "prior"}
+\* the options of kernel k in interface iface that change where the proposal noise comes from
+SourcesOf(k, iface) ==
+    {"global"} \cup CASE k = "RW"   -> {"proposal"}
+                     [] k = "CW"   -> {"proposal", "callable"}
+                     [] k = "PCN"  -> {"prior"}
+                     [] k = "MALA" -> IF iface = "leg" THEN {"rng"} ELSE {}
+ASSUME Sources \subseteq SourceIds
+
 \* ------------------------------ configurations ------------------------------
 PriorLog(c, p) == RMul(Q(-1, 2), RSum([i \in 1..c.d |-> R((p[i] - c.m) * (p[i] - c.m))], c.d))
 \* target log-density of the configuration at p
@@ -172,8 +195,9 @@ Valid(c) == /\ c.x0 \in X(c.d)
             /\ (c.tgt = "holesg" => c.k = "MALA")
             /\ c.tgt \in (IF c.d = 1 THEN Targets1 ELSE Targets2)
             /\ (IF c.k = "PCN" THEN c.m \in PriorMeans ELSE c.m = 0)
+            /\ c.src \in SourcesOf(c.k, c.iface)
 Configs == {c \in [k : Kernels, iface : Ifaces, d : Dims, tgt : Targets1 \cup Targets2, sc : ScaleIds,
-                   m : PriorMeans \cup {0}, x0 : X(1) \cup X(2)] : Valid(c)}
+                   m : PriorMeans \cup {0}, x0 : X(1) \cup X(2), src : Sources] : Valid(c)}
 
 MaxT(c) == IF c.d = 1 THEN MaxT1 ELSE MaxT2
 HasLp(k)   == k \in {"RW", "CW", "MALA"}
@@ -197,6 +221,17 @@ Noise(c, id, from, to) ==
                   e2 == RMul(Half, s[1])
               IN F([i \in 1..d |-> RDiv(RSub(R(to[i] - from[i]), RMul(e2, g[i])), SqrtEps(id))])
 NoiseMean(c) == IF c.k = "PCN" THEN R(c.m) ELSE Zero
+\* the noise of a transition is a d-vector of independent draws: a source that hands one value to every component is
+\* only told apart on a noise vector with two DIFFERENT components.  For the component-wise kernel the noise vector of a
+\* sweep collects the component noises of its d proposals (each Noise(...) has one non-zero entry).
+Distinct(n) == \E i, j \in DOMAIN n : n[i] # n[j]
+\* every configuration with a source other than the global stream in dimension >= 2 has a first transition whose noise
+\* has two different components (non-vacuity of the source dimension; evaluated once, over the constants)
+SourceConfigsDistinguish ==
+    \A c \in {q \in [k : Kernels, iface : Ifaces, d : Dims, tgt : Targets1 \cup Targets2, sc : ScaleIds,
+                       m : PriorMeans \cup {0}, x0 : X(1) \cup X(2), src : Sources \ {"global"}] : Valid(q)} :
+        c.d >= 2 => \E y \in X(c.d) : Distinct(Noise(c, c.sc, c.x0, y))
+ASSUME SourceConfigsDistinguish
 \* log q(to | from) up to a constant that does not depend on (from, to)
 LogQ(c, id, from, to) ==
     LET n  == Noise(c, id, from, to)
